@@ -112,6 +112,8 @@ register(PropertySpec(
              "a flag that says 'the stream produced no row' (and starts a fallback evaluation) is set by every row: no continue, early exit or condition bypasses the assignment"),
         Rule("SEEN-RECORDED", _lazy("flags", "rule_seen_recorded"), 1,
              "a local collection that is asked 'seen before?' to drop a row is added to on every path from 'not seen' to the yield (the rows replayed from a result cache are replayed once)"),
+        Rule("GRAPH-TRAVERSAL-ALL", _lazy("history", "rule_graph_traversal_all"), 4,
+             "the walks over the expression graph (reset, cache invalidation, variable collection) see all children / descendants / parents of a node, also one that has another primary parent"),
     ],
     explanation="Decides the clause 'the condition vocabulary denotes the ordinary Python operator': the node each "
                 "public comparison/membership entry constructs (arguments mapped to dataclass fields through the MRO "
@@ -177,6 +179,10 @@ register(PropertySpec(
              "(shared with C02) an operator asks its parent what to keep under the truth it can still have: below a negation the right side of the rewritten else-if must stay in the key"),
         Rule("OPERATION-ON-VALUES", _lazy("flags", "rule_operation_on_values"), 1,
              "(shared with C19) not_(contains(a, b)) is the complement of contains(a, b) for every value: the complement operation does not look at the truth of its operands"),
+        Rule("RETRIEVE-ALL-BRANCHES", _lazy("cacheidx", "rule_retrieve_bound_branches"), 2,
+             "(shared with C20) a lookup that binds a key follows the entry stored for that value AND the entry that leaves the key open: the rows of a negated conjunction whose sides mention different variables are stored both ways, and one of them is lost on a cache hit otherwise"),
+        Rule("BIND-KEEP", _lazy("binding", "rule_bind_keep"), 10,
+             "(shared with C01) a row an operator hands on is built from the whole row of its operand, not from the incoming binding alone: the rows of the complement keep what the first conjunct bound"),
     ],
     explanation="Negation is a rewrite at construction time, so it is a function on syntax and is decided from the "
                 "source: the inverse-operator table is extracted by abstract evaluation of the setter's CFG (match / if "
@@ -358,6 +364,8 @@ register(PropertySpec(
              "a flag that says 'the stream produced no row' (and starts a fallback evaluation) is set by every row: no continue, early exit or condition bypasses the assignment"),
         Rule("SEEN-RECORDED", _lazy("flags", "rule_seen_recorded"), 1,
              "a local collection that is asked 'seen before?' to drop a row is added to on every path from 'not seen' to the yield (the rows replayed from a result cache are replayed once)"),
+        Rule("GRAPH-TRAVERSAL-ALL", _lazy("history", "rule_graph_traversal_all"), 4,
+             "the walks over the expression graph (reset, cache invalidation, variable collection) see all children / descendants / parents of a node, also one that has another primary parent"),
     ],
     explanation="History independence is absence of residue on the shared expression nodes. Decided: where residue is "
                 "written (discovered mechanically from dataclass fields and mutation sites reachable from evaluation "
@@ -438,6 +446,8 @@ register(PropertySpec(
              "(shared with C01) every operand is evaluated under the binding of the enclosing row: a conjunct that enumerates an already bound variable afresh gives `the` a second, spurious solution"),
         Rule("REG-SNAPSHOT", _lazy("registry", "rule_reg_snapshot"), 1,
              "(shared with C14) the instances a variable without a domain ranges over are read from all stores before the first is handed out: what user code constructs during the evaluation is not a second solution"),
+        Rule("ROW-NOT-MEMOISED", _lazy("flags", "rule_row_not_memoised"), 1,
+             "no evaluation method keeps a row it produced in an attribute of the node and hands it out again on a later call (an operand is evaluated once per binding of the enclosing query)"),
     ],
     explanation="The three outcomes of `the` are decided by a typestate interpretation of its evaluator over the finite "
                 "state space (result None/solution, solutions consumed 0/1/>=2, _is_false_), exception classes resolved "
@@ -836,6 +846,8 @@ register(PropertySpec(
              "the stores of a class and of its subclasses are all read before the first instance is handed out: an evaluation that also constructs instances does not range over its own output"),
         Rule("CONCLUSION-VARS-BOUND", _lazy("ruletree", "rule_conclusion_vars_which"), 6,
              "(shared with C12) a variable without a domain that only a conclusion mentions ranges over all registered instances for every firing row"),
+        Rule("GRAPH-TRAVERSAL-ALL", _lazy("history", "rule_graph_traversal_all"), 4,
+             "the walks over the expression graph (reset, cache invalidation, variable collection) see all children / descendants / parents of a node, also one that has another primary parent"),
     ],
     explanation="Registry discipline is ownership: a single writer, on a must-pass-through path of the concrete "
                 "constructor arm, keyed by the runtime class; the symbolic arm provably (call-graph closure) cannot "
@@ -1057,6 +1069,12 @@ register(PropertySpec(
              "the building functions pass the conditions they are given on to the function that builds the query, in every arm"),
         Rule("RETRIEVE-ALL-BRANCHES", _lazy("cacheidx", "rule_retrieve_bound_branches"), 2,
              "(shared with C20) a lookup that binds a key follows the entry stored for that value and the entry that leaves the key open: otherwise a row is lost on a cache hit, depending on the order in which the variables were declared"),
+        Rule("DECL-FILTER", _lazy("predform", "rule_decl_filter_paths"), 1,
+             "(shared with C13) a variable ranges over members of its type only, also when its domain is a query or another variable: the values of an expression domain are filtered by the variable's type"),
+        Rule("GRAPH-TRAVERSAL-ALL", _lazy("history", "rule_graph_traversal_all"), 4,
+             "the walks over the expression graph (reset, cache invalidation, variable collection) see all children / descendants / parents of a node, also one that has another primary parent"),
+        Rule("ROW-NOT-MEMOISED", _lazy("flags", "rule_row_not_memoised"), 1,
+             "no evaluation method keeps a row it produced in an attribute of the node and hands it out again on a later call (an operand is evaluated once per binding of the enclosing query)"),
     ],
     explanation="An implicit join is a join only if every operator threads the binding it received to its operands and "
                 "keeps everything its operands bound. Both are provenance facts on the evaluation call sites and the "
@@ -1418,6 +1436,8 @@ register(PropertySpec(
              "an already quantified predicate-form term handed to an()/the()/infer() is re-wrapped by its description (conditions included), never by its selected variable alone"),
         Rule("FLAG-PER-ROW", _lazy("flags", "rule_flag_per_row"), 8,
              "inside a loop over rows, a read of the expression's own truth flag that follows an assignment to it is reached only when one of the assignments was executed for this row (structural conditions apart)"),
+        Rule("ROW-NOT-MEMOISED", _lazy("flags", "rule_row_not_memoised"), 1,
+             "no evaluation method keeps a row it produced in an attribute of the node and hands it out again on a later call (an operand is evaluated once per binding of the enclosing query)"),
     ],
     explanation="Decides the structural clauses of the three mechanisms the property is anchored in: (1) a quantifier node in "
                 "the middle of a tree is transparent for truth (same truth table as its conditions, request for false rows passed "
